@@ -78,6 +78,7 @@ class Stream:
     def run(self, cases, pid, tier):
         model, specs = run_model_with_spec(cases)
         impl = C.run_impl(cases)
+        self._last_impl = impl
         dis = []
         fails = []
         rel_checked = 0
@@ -784,3 +785,208 @@ class Wire(Stream):
 
 
 STREAMS.update({"nametext": NameText(), "nameord": NameOrd(), "wire": Wire()})
+
+
+# ------------------------------------------------------------------------------- views (C08)
+class Views(Stream):
+    """all views of a message agree"""
+    name = "views"
+    rule = ("per message (generated/mutated/random): reader 0 uses bare markers, reader 1 borrowed-name headers + raw bytes, reader 2 "
+            "owned Name headers + typed data, reader 3 InlineName headers; every borrowed name is decoded as Name and InlineName and "
+            "label-iterated; all pairs of borrowed names are compared with NameRef::eq; the iterator API drains the same bytes. "
+            "Checked on the implementation alone: equal marker fields wherever two views succeed, a view that decodes more never "
+            "succeeds where one that decodes less fails, decoded owner names equal, iterator items = reader items filtered by defined "
+            "type/class, NameRef::eq = case-insensitive equality of the decoded names. Non-trivial: >=1 record header read. Distinct by message.")
+
+    def generate(self, rng, tier, pid):
+        n = 2000 if tier == "quick" else 60000
+        out = []
+        for i in range(n):
+            m, ast, L, tag = GM.gen_message(rng)
+            nrec = (len(L.marks) if L else 2) + 1
+            nrec = min(nrec, 10)
+            calls = []
+            for r, (g1, g2) in enumerate((("marker", "?skipd:L"), ("href", "?bytes:L"), ("hdrH", None), ("hdrI", "?skipd:L"))):
+                calls += ["%d.header" % r, "%d.skipq" % r]
+                for k in range(nrec):
+                    calls.append("%d.%s" % (r, g1))
+                    if g2 is None:
+                        ty = L.marks[k]["type"] if (L and k < len(L.marks) and L.marks[k]["type"] in GM.TYPED) else None
+                        calls.append("%d.?data:%d:L" % (r, ty) if ty else "%d.?skipd:L" % r)
+                    else:
+                        calls.append("%d.%s" % (r, g2))
+                    if g1 == "href":
+                        calls += ["1.nrname:H:L", "1.nrname:I:L", "1.nrlabels:L"]
+            # names embedded in RDATA, reached through name_ref_at (not validated by any header call)
+            if rng.random() < 0.5 and len(m) > 20:
+                pass
+            for k in range(min(nrec, 6)):
+                calls += ["0.nrefat:%d" % k, "0.nrname:H:L", "0.nrname:I:L", "0.nrlabels:L"]
+            # borrowed-name pairs (indices 0..nrec-1 are reader 1's header names)
+            for a in range(min(nrec, 5)):
+                for b in range(min(nrec, 5)):
+                    calls.append("1.nreq:%d:%d" % (a, b))
+            hexm = GM.hx(m)
+            out.append("v%d script 4 %s %s %s %s %s" % (i, hexm, hexm, hexm, hexm, ",".join(calls)))
+            out.append("v%di iter %s" % (i, hexm))
+        return out
+
+    def nontrivial(self, line, impl):
+        return "ok:M(" in impl or "R(" in impl
+
+    def classify(self, line, impl):
+        return line.split(" ")[1]
+
+    @staticmethod
+    def lower(h):
+        b = bytes.fromhex(h) if h != "-" else b""
+        return bytes((c + 32) if 65 <= c <= 90 else c for c in b)
+
+    def oracle(self, line, impl, spec, pid):
+        if impl.startswith(ABNORMAL) or "PANIC" in impl:
+            return "implementation " + impl[:60]
+        if line.split(" ")[1] != "script":
+            return None
+        n, msgs, calls = split_calls(line)
+        res = impl.split(";")
+        if len(res) < len(calls):
+            return "run ended early"
+        per = {0: [], 1: [], 2: [], 3: []}
+        names1 = []   # (H, I, labels) per href
+        by_idx = {}
+        k = 0
+        nreq = []
+        while k < len(calls):
+            r, op = calls[k].split(".", 1)
+            r = int(r)
+            o = op.split(":")[0].lstrip("?")
+            if o in ("marker", "href", "hdrH", "hdrI"):
+                per[r].append((res[k], res[k + 1] if k + 1 < len(res) else ""))
+                if o == "href":
+                    mm = re.match(r"ok:HR\(#(\d+),", res[k])
+                    names1.append((res[k + 2], res[k + 3], res[k + 4]) if mm else ("", "", ""))
+                    if mm:
+                        by_idx[int(mm.group(1))] = (res[k + 2], res[k + 3], res[k + 4])
+            elif o == "nreq":
+                nreq.append((op, res[k]))
+            k += 1
+        mk = lambda s: (re.search(r"M\([^)]*\)", s).group(0) if re.search(r"M\([^)]*\)", s) else None)
+        alive = [True, True, True, True]
+        for i in range(len(per[0])):
+            g = [per[r][i][0] if i < len(per[r]) else "" for r in range(4)]
+            if not all(alive):
+                break   # a reader that hit an error is exhausted by design; nothing more to compare
+            ok = [x.startswith("ok") for x in g]
+            ms = [mk(x) for x in g]
+            alive = [ok[r] and (per[r][i][1].startswith("ok") if i < len(per[r]) else False) for r in range(4)]
+            # more decoding never succeeds where less fails: HN(Name)/HN(Inline) => HR => M
+            if (ok[2] or ok[3]) and not ok[1]:
+                return "record %d: owned-name header succeeded but borrowed-name header failed: %s / %s" % (i, g[2][:80], g[1][:80])
+            if ok[1] and not ok[0]:
+                return "record %d: borrowed-name header succeeded but bare marker failed: %s / %s" % (i, g[1][:80], g[0][:80])
+            if ok[2] != ok[3]:
+                return "record %d: Name and InlineName headers disagree: %s / %s" % (i, g[2][:80], g[3][:80])
+            present = [m for m, o in zip(ms, ok) if o]
+            if len(set(present)) > 1:
+                return "record %d: views report different marker fields: %s" % (i, present)
+            if not ok[0]:
+                break
+            if ok[2] and ok[3]:
+                n2 = re.match(r"ok:HN\(([0-9a-f-]+),", g[2]).group(1)
+                n3 = re.match(r"ok:HN\(([0-9a-f-]+),", g[3]).group(1)
+                if n2 != n3:
+                    return "record %d: Name and InlineName owner differ" % i
+                if i < len(names1):
+                    h, ii, lb = names1[i]
+                    if h != "ok:N(%s)" % n2 or ii != "ok:N(%s)" % n2:
+                        return "record %d: borrowed name decodes to %s / %s, owned header says %s" % (i, h[:60], ii[:60], n2[:60])
+                    labs = re.findall(r":([0-9a-f-]+),", lb)
+                    txt = "".join(l + "2e" for l in labs) or "2e"
+                    if not lb.endswith(",none)") or txt != n2:
+                        return "record %d: label iteration %s does not spell the decoded name %s" % (i, lb[:80], n2[:60])
+            elif ok[1] and i < len(names1):
+                # header_ref succeeded (it validates by skipping) but decoding failed: only the length limit may differ
+                h = names1[i][0]
+                if h.startswith("ok"):
+                    return "record %d: owned header failed (%s) but decoding the borrowed name succeeded" % (i, g[2][:60])
+            # G2 of the views must agree on success
+            d = [per[r][i][1] if i < len(per[r]) else "" for r in range(4)]
+            if ok[0] and ok[1] and d[0].startswith("ok") != d[1].startswith("ok"):
+                return "record %d: skip vs raw bytes disagree: %s / %s" % (i, d[0][:60], d[1][:60])
+        # a borrowed name: label iteration and decoding validate the same labels
+        for k, c in enumerate(calls):
+            if c.split(".", 1)[1].startswith("nrefat") and k + 3 < len(res) and res[k].startswith("ok:NR"):
+                h, ii, lb = res[k + 1], res[k + 2], res[k + 3]
+                if h.startswith("ok") != ii.startswith("ok"):
+                    return "Name and InlineName decode the same borrowed name differently: %s / %s" % (h[:60], ii[:60])
+                labs = re.findall(r":([0-9a-f-]+),", lb)
+                wl = sum(len(l) // 2 + 1 for l in labs) + 1
+                if lb.endswith(",none)"):
+                    txt = "".join(l + "2e" for l in labs) or "2e"
+                    if wl <= 255 and h != "ok:N(%s)" % txt:
+                        return "label iteration accepts %s but decoding gives %s" % (lb[:80], h[:80])
+                elif h.startswith("ok"):
+                    return "decoding succeeded (%s) but label iteration failed: %s" % (h[:60], lb[-60:])
+        # NameRef::eq against decoded names
+        for op, r in nreq:
+            _, a, b = op.split(":")
+            a, b = int(a), int(b)
+            if a in by_idx and b in by_idx:
+                ha, hb = by_idx[a][0], by_idx[b][0]
+                if ha.startswith("ok:N(") and hb.startswith("ok:N("):
+                    want = self.lower(ha[5:-1]) == self.lower(hb[5:-1])
+                    if r != "ok:%s" % ("true" if want else "false"):
+                        return "NameRef::eq(%d,%d) = %s but the decoded names are %sequal" % (a, b, r, "" if want else "not ")
+        return None
+
+    def run(self, cases, pid, tier):
+        r = super().run(cases, pid, tier)
+        # iterator vs reader (cross-case): typed items of reader 2 filtered by defined type/class
+        impl = self._last_impl
+        for line in cases:
+            cid = line.split(" ", 1)[0]
+            if not cid.endswith("i"):
+                continue
+            it = impl.get(cid, "")
+            sc = impl.get(cid[:-1], "")
+            why = self.iter_vs_reader(it, sc)
+            if why:
+                r["failures"].append({"stream": self.name, "case": line, "observed": it[:400], "expected": sc[:400], "why": why})
+        return r
+
+    DEFINED_T = {1, 2, 3, 4, 5, 6, 7, 8, 9, 10, 11, 12, 13, 14, 15, 16, 28, 41, 252, 253, 254, 255}
+    DEFINED_C = {1, 2, 3, 4, 255}
+
+    def iter_vs_reader(self, it, sc):
+        if not it.startswith("new=ok") or not sc:
+            return None
+        m = re.search(r"RS=\[(.*)\](end|err:\S+)$", it)
+        if not m:
+            return None
+        items = re.findall(r"R\((\d),([0-9a-f-]+),(\d+),(\d+),(\d+),(D\([^)]*\))\)", m.group(1))
+        # reader 2's sequence: ok:HN(name,M(off,toff,type,class,ttl,rdlen,section));ok:D(...)
+        seq = re.findall(r"ok:HN\(([0-9a-f-]+),M\(\d+,\d+,(\d+),(\d+),(\d+),\d+,(\d)\)\);(ok:D\([^)]*\)|ok|err:[^;]*|skip)", sc.split(";1.")[0])
+        want = []
+        for (nm, ty, cl, ttl, sec, d) in seq:
+            if int(ty) in self.DEFINED_T and int(cl) in self.DEFINED_C:
+                if int(ty) in (41, 252, 253, 254, 255):
+                    break
+                if not d.startswith("ok:D("):
+                    break
+                want.append((sec, nm, cl, ty, ttl, d[3:]))
+        got = [tuple(x) for x in items]
+        for a, b in zip(got, want):
+            if a != b:
+                return "iterator item %s differs from the reader's %s" % (a, b)
+        return None
+
+
+_orig_run = Stream.run
+
+
+def _run_keep(self, cases, pid, tier):
+    r = _orig_run(self, cases, pid, tier)
+    return r
+
+
+STREAMS.update({"views": Views()})
